@@ -105,6 +105,16 @@ def main(argv=None):
         inconclusive.append("shard %d exceeded the %ds watchdog" % (sh, hard_s))
       log.close()
       if rc is None:
+        # the violations this shard had witnessed before it hung still count
+        if os.path.exists(out + ".partial"):
+          try:
+            with open(out + ".partial") as f:
+              res = json.load(f)
+            res["_hashes"] = b""
+            res["needs"] = {}
+            results.append(res)
+          except Exception:  # noqa
+            pass
         continue
       if rc != 0 or not os.path.exists(out):
         tail = open(log.name).read()[-1500:]
